@@ -130,9 +130,7 @@ def aggSig (ft : FloatTab) (g : Graph) (q : AggQ) (ordered : Bool) (m s : Res) :
   | _ =>
     let m' := resMapRows (toReturnOrder q.items) m
     let kept := (Pipe.bindings g q.core).filter (passes q.preds)
-    let floatKey := kept.any (fun b => (keyVals ft q b).any isFloat)
     if sh m' == sh s then "agg-key-columns-first"
-    else if floatKey then "agg-float-key-as-bits"
     else
       -- the first aggregate that deviates on its own (same keys, this aggregate only)
       let alone := (aggItems q.items).filter (fun it =>
